@@ -130,7 +130,7 @@ func TestC05(t *testing.T) {
 		longLivedHandle(t, r, tmp)
 		clientCacheModes(t, r, tmp)
 	}
-	r.Require("state_directory_listings_during_an_upload", "files_scanned", "scans_after_operation", "kek_checks", "kek_checks_after_reopen", "bit_flips", "truncations", "splices", "foreign_key_opens", "tampered_opens_rejected", "crash_point_scans", "temporaries_scanned", "mode_checks", "kek_checks_after_failed_write", "kek_checks_long_lived_handle", "client_cache_mode_checks", "creating_open_calls_observed", "cache_crash_point_scans", "backup_uploads_scanned", "audit_dir_mode_checks", "external_stat_changes", "refused_writes_scanned", "forged_key_material_opens", "audit_log_rotations_while_running")
+	r.Require("metrics_renderings_beside_the_kek", "state_directory_listings_during_an_upload", "files_scanned", "scans_after_operation", "kek_checks", "kek_checks_after_reopen", "bit_flips", "truncations", "splices", "foreign_key_opens", "tampered_opens_rejected", "crash_point_scans", "temporaries_scanned", "mode_checks", "kek_checks_after_failed_write", "kek_checks_long_lived_handle", "client_cache_mode_checks", "creating_open_calls_observed", "cache_crash_point_scans", "backup_uploads_scanned", "audit_dir_mode_checks", "external_stat_changes", "refused_writes_scanned", "forged_key_material_opens", "audit_log_rotations_while_running")
 	r.Rule("histories of 15-25 operations with marker names and values on a state directory holding the database and a real audit log, every file scanned after every operation, KEK call counter read after every operation (also after a reopen); tamper loop on saved files: every single-bit flip, every truncation length, version-field edits, DEK/DB splices between databases under the same and under a different KEK, foreign KEKs; crash points of a save scanned for plaintext in temporaries. Distinct = (operation kind, file kind) for scans and (tamper kind, outcome)")
 }
 
@@ -670,6 +670,19 @@ func runningServerBackups(t *testing.T, r *evid.Run, tmp string) {
 			if c := kek.calls(); c != after {
 				r.Violation("kek-used-after-open", -1, fmt.Sprintf("with the server's backup task running, %d call(s) to the key-encryption key were made after the database had been opened (by write #%d or the backup that followed it)", c-after, i+1), nil)
 				break
+			}
+		}
+		// "a running server" includes whoever scrapes its metrics: rendering them consults no key either
+		if srvM, err := server.New(ctx, server.Config{DB: d, Mux: http.NewServeMux()}); err == nil {
+			for k := 0; k < 3; k++ {
+				out := srvM.Metrics().String()
+				r.Count("metrics_renderings_beside_the_kek", 1)
+				if hit, ok := f.Find([]byte(out)); ok {
+					r.Violation("plaintext-in-metrics", -1, "the server's metrics contain "+hit, nil)
+				}
+			}
+			if c := kek.calls(); c != after {
+				r.Violation("kek-used-after-open", -1, fmt.Sprintf("rendering the server's metrics made %d call(s) to the key-encryption key", c-after), nil)
 			}
 		}
 		cancel()
